@@ -21,7 +21,9 @@ ASSUMPTIONS = [
 
 FILLERS = [' ', '\n', '\t\r\n  ', '/**/', ' /* x */ ', '/* { ; } " \' class */', ' // ; } { class\n', '/*\n * multi\n * line ;\n */',
            '/** banner **/', '/***/', '//\n', '/* a */ /* b **/', '// c1\n  // c2 */\n', '/* // */', '// /*\n',
-           '/* void serialize() const; serializable; #include <x.h> virtual template<T = {int}> typedef enum namespace n { } */']
+           '/* void serialize() const; serializable; #include <x.h> virtual template<T = {int}> typedef enum namespace n { } */',
+           '// ff\x0c class Q1 { } ; vt\x0b fs\x1c gs\x1d rs\x1e nel\x85 class Q2 { } ; ls\u2028 ps\u2029 } ; {\n',
+           '/* \x0c \x0b \x85 \u2028 \u2029 ; } */']
 
 
 def seeds():
@@ -205,6 +207,32 @@ def tokclass(t):
     return repr(t)
 
 
+def check_boundary(case):
+    """A declaration after `//` on the same line is a comment, on the next line it is code -- whichever of the two
+    texts (equal as sequences of blank-separated words) was parsed first in this process."""
+    toks, ref = reference(case['seed'])
+    base = layout(toks, {})
+    extra = 'class Zq9 { Zq9 ( ) ; } ;'
+    commented = base + ' // ' + extra + '\n'
+    declared = base + ' //\n' + extra + '\n'
+    want_declared = outputs(base + ' ' + extra)['tree']
+    viol = []
+    order = [('commented', commented), ('declared', declared)]
+    if case['first'] == 'declared':
+        order.reverse()
+    for name, text in order + order:
+        got = outputs(text)['tree']
+        want = ref['tree'] if name == 'commented' else want_declared
+        if got != want:
+            viol.append({'sig': 'C12|comment-boundary|%s-after-the-other' % name,
+                         'msg': 'a declaration %s gives %s\n--- input (parsed %s in this process) ---\n%s'
+                                % ('after // on the same line must be ignored' if name == 'commented' else 'on the line after // must be parsed',
+                                   got if isinstance(got, str) else 'a different tree: ' + str(D.diff(want, got)),
+                                   'second' if name == order[1][0] else 'first', text[-200:])})
+            break
+    return {'viol': viol}
+
+
 def fclass(f):
     if f.strip() == '':
         return 'whitespace'
@@ -216,6 +244,8 @@ def fclass(f):
 
 
 def replay(case):
+    if case.get('first'):
+        return check_boundary(case)['viol']
     return check_case(case)['viol']
 
 
@@ -223,7 +253,7 @@ def run(ctx):
     cases = []
     S = seeds()
     nf = len(FILLERS)
-    single = list(range(nf)) if ctx.thorough else [0, 1, 3, 5, 6, 7, 8, 11, 12]
+    single = list(range(nf)) if ctx.thorough else [0, 1, 3, 5, 6, 7, 8, 11, 12, 16]
     for name, mod in list(S.items()) + list(SMALL.items()):
         n = len(atomic_tokens(mod))
         k = 0
@@ -242,10 +272,12 @@ def run(ctx):
                 for f1, f2 in itertools.product((3, 5, 6, 8, 11), repeat=2):
                     cases.append({'seed': name, 'fill': {str(g1): f1, str(g2): f2}, 'gen': False})
     res = ctx.map(check_case, cases)
+    bcases = [{'seed': name, 'first': first} for name in list(S) + list(SMALL) for first in ('commented', 'declared')]
+    resb = ctx.map(check_boundary, bcases, chunksize=1)
     return {
-        'evaluations': len(cases),
+        'evaluations': len(cases) + len(bcases),
         'distinct_nontrivial': len({(c['seed'], tuple(sorted(c['fill'].items()))) for c in cases}),
-        'rule': '%d seed modules (%s) x every token gap x %d fillers (9 of them in the quick tier), all-gaps and alternating variants%s; distinct by '
+        'rule': '%d seed modules (%s) x every token gap x %d fillers (10 of them in the quick tier), all-gaps and alternating variants%s, and per seed the pair `// decl` / `//<newline>decl` parsed in both orders within one process; distinct by '
                 '(seed, gap->filler map); generator outputs compared on %d of them'
                 % (len(S) + len(SMALL), ', '.join(list(S) + list(SMALL)), nf,
                    '; all gap pairs x 25 filler pairs on the two small seeds' if ctx.thorough else '',
